@@ -119,8 +119,6 @@ Definition well_correlated_b (x : input) : option (string * string) :=
   | None => None
   end.
 
-Definition scd_is_data (s : scd) : bool := match s with Data _ => true | NoData => false end.
-
 Definition verdict_eqb (a b : verdict) : bool :=
   match a, b with
   | Identity x, Identity y => opt_eqb String.eqb x y
@@ -154,3 +152,29 @@ Definition status_raised_when_fine_b (x : input) (v : verdict) : bool :=
 Definition spec_b (x : input) (v : verdict) : bool :=
   correlated_b x v && status_respected_b x v && shape_respected_b x v
   && accepted_when_fine_b x v && status_raised_when_fine_b x v.
+
+(* ------------------------------------------------------------- the delivery
+   "For Responses received over a browser binding (POST, Redirect) ...": the correlation clause and the
+   completeness clauses speak about the browser bindings; the status / version / shape clauses
+   ("never produces identity") hold whatever the binding. *)
+Definition browser (b : binding) : bool := match b with Post | Redirect => true | _ => false end.
+
+(* not addressed to somewhere else: no Destination, or the consumer endpoint of the binding the
+   Response arrived over (addressing itself is property C04; here it only conditions completeness) *)
+Definition well_addressed (y : delivery) : bool :=
+  match dest y, via y with
+  | DAbsent, _ | DPost, Post | DRedirect, Redirect => true
+  | _, _ => false
+  end.
+
+Definition spec_d (y : delivery) (v : verdict) : Prop :=
+  (browser (via y) = true -> correlated (resp y) v)
+  /\ status_respected (resp y) v /\ shape_respected (resp y) v
+  /\ (browser (via y) = true -> well_addressed y = true ->
+      accepted_when_fine (resp y) v /\ status_raised_when_fine (resp y) v).
+
+Definition spec_d_b (y : delivery) (v : verdict) : bool :=
+  (negb (browser (via y)) || correlated_b (resp y) v)
+  && status_respected_b (resp y) v && shape_respected_b (resp y) v
+  && (negb (browser (via y) && well_addressed y)
+      || (accepted_when_fine_b (resp y) v && status_raised_when_fine_b (resp y) v)).
